@@ -353,6 +353,17 @@ type built struct {
 	nEncBufs int
 }
 
+// warmUp builds and discards one small packet with the given signer.
+func warmUp(kind string, signer ndn.Signer) {
+	defer func() { _ = recover() }()
+	n, _ := enc.NameFromStr("/warm/up")
+	if kind == "I" {
+		_, _ = spec.Spec{}.MakeInterest(n, &ndn.InterestConfig{}, enc.Wire{[]byte("warm-up parameters")}, signer)
+	} else {
+		_, _ = spec.Spec{}.MakeData(n, &ndn.DataConfig{}, enc.Wire{[]byte("warm-up content")}, signer)
+	}
+}
+
 // make calls the real packet API. A panic is reported as error (violation).
 func (p Pkt) make() (b *built, err error) {
 	defer func() {
@@ -364,6 +375,11 @@ func (p Pkt) make() (b *built, err error) {
 	var signer ndn.Signer
 	if b.rec != nil {
 		signer = b.rec
+		// A signer object is used for many packets: sign a throw-away packet of the same kind
+		// with the very same object first, so that state leaking from one signature into the
+		// next (seeded defect C12-r2-1: a keyed hash that was never reset) shows in the packet
+		// under test. The recorder is reset by the real call.
+		warmUp(p.Kind, b.rec.inner)
 	}
 	name := p.Name.toEnc()
 	b.inName = p.Name.toEnc()
